@@ -154,7 +154,11 @@ class PythonExpressionMapper(StringifyMapper):
         if isinstance(expr, np.generic):
             expr = expr.item()
 
-        return repr(expr)
+        result = repr(expr)
+        if result.startswith("-"):
+            # e.g. (-1.5)**2, not -1.5**2
+            result = "(%s)" % result
+        return result
 
     def map_foreign(self, expr, *args):
         if expr is None:
